@@ -18,6 +18,7 @@ package store
 //     afterwards still shows model content and the same configuration.
 
 import (
+	"context"
 	"fmt"
 	"os"
 	"path/filepath"
@@ -26,6 +27,7 @@ import (
 	"testing"
 	"time"
 
+	"github.com/rqlite/rqlite/v10/command/proto"
 	"github.com/rqlite/rqlite/v10/internal/verif/vstat"
 	"github.com/rqlite/rqlite/v10/snapshot"
 	rlog "github.com/rqlite/rqlite/v10/store/log"
@@ -59,7 +61,7 @@ func c33ClosedState(dir string) (snapIdx uint64, nSnaps int, lastIdx uint64, err
 
 func TestVerif_C33_Recover(t *testing.T) {
 	rec := vstat.New(t, "C33", "recover",
-		"rapid histories (t.Repeat) of small/page-heavy writes, user snapshots, optional threshold snapshots and file loads on a real single-node Store, clean shutdown with/without snapshot-on-close, then recovery with a generated peers.json (self same/changed address, +non-voters, +voters); non-trivial = the closed node had >=1 snapshot and >=1 applied write/load; distinct = hash of the whole history, flags and peers shape")
+		"rapid histories (t.Repeat) of small/page-heavy writes, non-mutating log entries (strong reads, noops, rejected loads, failing statements; in half of the histories as the last entries), user snapshots, optional threshold snapshots and file loads on a real single-node Store, clean shutdown with/without snapshot-on-close, then recovery with a generated peers.json (self same/changed address, +non-voters, +voters); non-trivial = the closed node had >=1 snapshot and >=1 applied write/load; distinct = hash of the whole history, flags and peers shape")
 	rapid.Check(t, func(rt *rapid.T) { c33Case(rt, rec) })
 }
 
@@ -107,6 +109,34 @@ func c33Case(rt *rapid.T, rec *vstat.Rec) {
 		rt.Fatalf("%s", rec.Violation(sig, "%s | history: %s", msg, strings.Join(hist, " ; ")))
 	}
 
+	// log entries that do not change the database: a strong read (goes through
+	// the log as a QUERY command), a NOOP, a rejected load, a request whose
+	// only statement fails
+	nNonMut := 0
+	nonMutating := func(rt *rapid.T) {
+		kind := rapid.SampledFrom([]string{"strong-read", "noop", "invalid-load", "failing-write"}).Draw(rt, "nonMutating")
+		switch kind {
+		case "strong-read":
+			qr := queryRequestFromString("SELECT count(*) FROM sqlite_master", false, false, false)
+			qr.Level = proto.ConsistencyLevel_STRONG
+			if _, _, _, err := s.Query(context.Background(), qr); err != nil {
+				fail("C33/query-error", "strong read failed: %v", err)
+			}
+		case "noop":
+			af, err := s.Noop("c33")
+			if err != nil || af.Error() != nil {
+				fail("C33/noop-error", "noop failed: %v", err)
+			}
+		case "invalid-load":
+			if err := s.Load(context.Background(), &proto.LoadRequest{Data: []byte("SQLite format 3\x00 and then garbage, not a database")}); err == nil {
+				fail("C33/invalid-load-accepted", "load of garbage returned no error")
+			}
+		case "failing-write":
+			g8aExec(s, []string{"INSERT INTO no_such_table VALUES (1)"})
+		}
+		nNonMut++
+		hist = append(hist, "NONMUT("+kind+")")
+	}
 	rt.Repeat(map[string]func(*rapid.T){
 		"write-small": func(rt *rapid.T) {
 			b := g8aSmallBatch(rt)
@@ -150,6 +180,7 @@ func c33Case(rt *rapid.T, rec *vstat.Rec) {
 			nLoads++
 			hist = append(hist, "LOAD"+spec.String())
 		},
+		"non-mutating-entry": func(rt *rapid.T) { nonMutating(rt) },
 		"pause": func(rt *rapid.T) {
 			if threshold {
 				time.Sleep(time.Duration(rapid.IntRange(20, 150).Draw(rt, "ms")) * time.Millisecond)
@@ -157,6 +188,16 @@ func c33Case(rt *rapid.T, rec *vstat.Rec) {
 			}
 		},
 	})
+
+	// in half of the histories the last entries before the shutdown do not
+	// change the database
+	lastNonMut := false
+	if rapid.Bool().Draw(rt, "trailingNonMutating") {
+		for i := rapid.IntRange(1, 2).Draw(rt, "nTrailing"); i > 0; i-- {
+			nonMutating(rt)
+		}
+		lastNonMut = true
+	}
 
 	// ---- shutdown
 	if err := g8aBarrier(s, 20*time.Second); err != nil {
@@ -240,6 +281,12 @@ func c33Case(rt *rapid.T, rec *vstat.Rec) {
 	}
 	if nLoads > 0 {
 		rec.Label("has-load")
+	}
+	if lastNonMut {
+		rec.Label("last-log-entries-non-mutating")
+	}
+	if nNonMut > 0 {
+		rec.Label("has-non-mutating-entry")
 	}
 	if threshold {
 		rec.Label("threshold-snapshots")
